@@ -4,12 +4,12 @@ package main
 
 import (
 	"fmt"
-	"os"
 	"go/ast"
 	"go/constant"
 	"go/token"
 	"go/types"
 	"math/big"
+	"os"
 	"strings"
 
 	"golang.org/x/tools/go/ssa"
@@ -90,6 +90,28 @@ func (env *Env) eval(x Expr) V {
 	case *EIdent:
 		return env.ident(e.Name)
 	case *EUn:
+		if e.Op == "&" {
+			// address of a field: a pointer value that denotes the location
+			sel, ok := e.X.(*ESel)
+			if !ok {
+				panic(specErr("& needs a field selector"))
+			}
+			x := env.eval(sel.X)
+			pt, ok := x.Ty.Underlying().(*types.Pointer)
+			if !ok {
+				panic(specErr("&x.f: x must be a pointer"))
+			}
+			loc := fc.locOf(x)
+			path, ft, ok := fieldPath(pt.Elem(), sel.Name)
+			if !ok {
+				panic(specErr("no field %s in %s", sel.Name, pt.Elem()))
+			}
+			pre := loc.Pre
+			for _, i := range path {
+				pre += fmt.Sprintf("f%d_", i)
+			}
+			return V{Ty: types.NewPointer(ft), T: []string{loc.Ref}, Loc: &Loc{Kind: locField, S: loc.S, Pre: pre, Ref: loc.Ref, Ty: ft}}
+		}
 		v := env.eval(e.X)
 		switch e.Op {
 		case "!":
@@ -796,8 +818,14 @@ func (env *Env) callExpr(e *ECall) V {
 	}
 	// ghost function
 	if g, ok := fc.e.specs.Ghosts[name]; ok {
-		argc(1)
-		o := env.eval(e.Args[0])
+		var o V
+		if g.Arg == "" {
+			argc(0)
+			o = V{Ty: types.Typ[types.Int], T: []string{"0"}} // a global ghost variable
+		} else {
+			argc(1)
+			o = env.eval(e.Args[0])
+		}
 		keys, srts, id, rt := env.ghostKeys(g, o)
 		out := V{Ty: rt, Mem: g.Mem}
 		for k := range keys {
@@ -1078,6 +1106,13 @@ type modTarget struct {
 	lo, hi string // absolute index range for mem
 }
 
+// resolveTargetIn resolves a target with the object expressions evaluated in the given state.
+func (env *Env) resolveTargetIn(text string, st *State) []modTarget {
+	e2 := *env
+	e2.old = st
+	return e2.resolveTarget(text)
+}
+
 func (env *Env) resolveTarget(text string) []modTarget {
 	fc := env.fc
 	x, err := ParseExpr(text)
@@ -1143,17 +1178,24 @@ func (env *Env) resolveTarget(text string) []modTarget {
 	case *ECall:
 		if id, ok := e.Fun.(*EIdent); ok {
 			if g, ok := fc.e.specs.Ghosts[id.Name]; ok {
-				if a, ok := e.Args[0].(*EIdent); ok && a.Name == "any" {
-					// the ghost field of every object (state owned by a pool, invisible to callers)
-					rt := env.specType(g.Ret)
-					mt := modTarget{kind: "ghostall", ref: "0"}
-					for _, c := range fc.e.comps(rt) {
-						mt.keys = append(mt.keys, "ghost:"+g.Name+"."+c.Suf)
-						mt.sorts = append(mt.sorts, c.Sort)
+				if len(e.Args) == 1 {
+					if a, ok := e.Args[0].(*EIdent); ok && a.Name == "any" {
+						// the ghost field of every object (state owned by a pool, invisible to callers)
+						rt := env.specType(g.Ret)
+						mt := modTarget{kind: "ghostall", ref: "0"}
+						for _, c := range fc.e.comps(rt) {
+							mt.keys = append(mt.keys, "ghost:"+g.Name+"."+c.Suf)
+							mt.sorts = append(mt.sorts, c.Sort)
+						}
+						return []modTarget{mt}
 					}
-					return []modTarget{mt}
 				}
-				o := env.withState(env.old, func() V { return env.eval(e.Args[0]) })
+				var o V
+				if g.Arg == "" {
+					o = V{Ty: types.Typ[types.Int], T: []string{"0"}}
+				} else {
+					o = env.withState(env.old, func() V { return env.eval(e.Args[0]) })
+				}
 				keys, srts, oid, _ := env.ghostKeys(g, o)
 				return []modTarget{{kind: "ghost", keys: keys, sorts: srts, ref: oid}}
 			}
